@@ -5,6 +5,7 @@ import (
 	"go/constant"
 	"go/token"
 	"go/types"
+	"gocv/internal/spec"
 	"strings"
 
 	"golang.org/x/tools/go/ssa"
@@ -1117,12 +1118,65 @@ func (f *fnState) ret(i *ssa.Return) {
 			t := f.specBool(c.E, ctx)
 			f.oblige("POST", c.Label, normSite(c.Text)+" @ "+f.site(), t)
 		}
-		if f.fc.HasMod {
-			f.frameCheck()
+		f.frameCheck()
+		for _, ni := range f.fc.NI {
+			f.niObligation(ni, binds)
 		}
 	}
 	// cover: this return is reachable (vacuity guard)
 	o := &Obligation{ID: fmt.Sprintf("%s/COVER/return %d", f.key(), f.retSeen), Func: f.key(), Class: "COVER",
 		Site: "return " + f.site(), Goal: "false", Reach: f.reach, prefix: len(f.log), Expected: "sat", fs: f}
 	f.obls = append(f.obls, o)
+}
+
+// niObligation builds the 2-safety obligation of a noninterference clause at a return.
+func (f *fnState) niObligation(ni spec.NIClause, binds map[string]SV) {
+	ctx := f.specCtx(binds)
+	cond := f.specBool(ni.Cond, ctx)
+	var res []string
+	for _, n := range f.results {
+		if v, ok := binds[n]; ok {
+			res = append(res, f.flatten(v)...)
+		}
+	}
+	// which entry memory may differ
+	ectx := &specCtx{f: f, env: f.entry, old: f.entry, binds: f.params, pkg: ctx.pkg}
+	sets := map[string]*modSet{}
+	f.modItem(ni.Item.E, ectx, func(key string) *modSet {
+		m := sets[key]
+		if m == nil {
+			m = &modSet{key: key}
+			sets[key] = m
+		}
+		return m
+	})
+	info := &niInfo{bases: map[string]bool{}}
+	for _, key := range sortedKeys(sets) {
+		s := f.cellSort[key]
+		base := f.cellBase(key, s).T
+		info.bases[strings.Trim(base, "|")] = true
+		var in []string
+		for _, p := range sets[key].preds {
+			in = append(in, p("nk"))
+		}
+		ks := "Loc"
+		if !strings.HasPrefix(s, "(Array Loc") {
+			ks = "Int"
+		}
+		info.relation = append(info.relation, fmt.Sprintf("(assert (forall ((nk %s)) (! (=> (not %s) (= (select %s nk) (select %s nk))) :pattern ((select %s nk)))))", ks, or(in...), base, "@B@"+base, "@B@"+base))
+	}
+	reach := f.reach
+	info.goalB = func(ren func(string) string) string {
+		var eqs []string
+		for _, r := range res {
+			eqs = append(eqs, eq(r, ren(r)))
+		}
+		return fmt.Sprintf("(=> (and %s %s %s) %s)", cond, ren(reach), ren(cond), and(eqs...))
+	}
+	o := f.oblige("NI", ni.Label, normSite(ni.Text)+" @ "+f.site(), "true!")
+	if o != nil {
+		o.ni = info
+		// do not assume a 2-safety goal
+		f.log = f.log[:len(f.log)-1]
+	}
 }
